@@ -120,7 +120,7 @@ def reply_s(draw, kinds):
 # profiles: weights of event kinds per property
 
 BASE = {
-    "N": 6, "d": 2, "u": 5, "ub": 2, "n": 6, "U": 6, "Ubad": 1, "P": 5, "H": 2, "D": 1, "T": 1, "C": 1,
+    "N": 6, "d": 2, "u": 5, "ub": 2, "n": 6, "U": 6, "Ubad": 1, "Eerr": 1, "P": 5, "H": 2, "D": 1, "T": 1, "C": 1,
     "X": 14, "x": 2, "!": 3, "Xstale": 2, "Xforeign": 1,
 }
 PROFILES = {
@@ -194,6 +194,9 @@ def event_s(draw, cid, conf, kinds, rkinds, pwweights):
         return ["U", cid, draw(user_s), draw(real_s)]
     if k == "Ubad":
         return ["raw", "%d U %s" % (cid, draw(user_s))]
+    if k == "Eerr":
+        # the server passes on an error report that names the client: the modules may note it, the request lives on
+        return ["raw", "%d E %s" % (cid, draw(st.sampled_from(["Invalid :Bad user info", "Invalid :", "Lost :connection reset by peer", "type", ""])))]
     if k == "P":
         return ["P", cid, draw(password_s(pwweights))]
     if k in ("H", "D", "T", "!"):
@@ -343,6 +346,12 @@ def slot_reuse_scenario(draw, conf):
             ev += [["X", lv, S[0], "NO go away", "cur"], ["D", lv]]
         else:
             ev += [[how_, lv]]
+    late = None
+    if draw(st.booleans()):
+        # a client that has only been announced (or has delivered part of its data) when the table changes: it meets
+        # the newcomer with a clean slate, is asked once, and further events of its own do not make the daemon ask again
+        late = cid + 3
+        ev += [["C", late, "10.9.9.6", 1114]] + ([["N", late, "late.example.org"]] if draw(st.booleans()) else [])
     waiter = None
     if draw(st.integers(0, 2)) == 0:
         # ... or somebody else still waits for the service when the reload drops it: its record outlives the reload
@@ -363,6 +372,13 @@ def slot_reuse_scenario(draw, conf):
         if waiter is not None:
             ev.append(draw(st.sampled_from([["X", waiter, S[0], "OK", "cur"], ["X", waiter, S[0], "AGAIN no", "cur"], ["D", waiter], ["x", waiter, S[0], "cur"]])))
         ev.append(["reconf", {"services": rest + [T]}])
+    if late is not None:
+        ev += [["N", late, "late.example.org"], ["U", late, "user", "late client"], ["u", late, "late"], ["n", late, "Late"]]
+        if draw(st.booleans()):
+            ev += [["P", late, "+x lateacct pw"]]
+        ev += [t_ for t_ in [["n", late, "Late2"], ["u", late, "late2"], ["H", late], ["d", late]] if draw(st.booleans())]
+        if draw(st.booleans()):
+            ev += [["X", late, T[0], draw(st.sampled_from(["MORE riddle", "OK", "AGAIN no"])), "cur"], ["n", late, "Late3"], ["P", late, "an answer"]]
     tail = [["u", cid, "ident2"], ["n", cid, "Nick2"], ["P", cid, "+x! acct pw2"], ["P", cid, "mellon"], ["d", cid]]
     ev += [t_ for t_ in draw(st.permutations(tail)) if draw(st.integers(0, 3))]
     ev.append(["X", cid, T[0], draw(st.sampled_from(["OK acct:1", "OK", "MORE riddle", "NO go away"])), "cur"])
@@ -382,6 +398,10 @@ def crowd_events(draw):
     if draw(st.booleans()):
         ids.reverse()
     ev = [["C", cid, "10.0.%d.%d" % (cid // 250, cid % 250), 1000 + cid] for cid in ids]
+    if draw(st.booleans()):
+        # the very first thing said about the clients announced first is that they are gone / registered
+        ev += [[draw(st.sampled_from(["D", "T"])), cid] for cid in ids[:2]]
+        ids = ids[2:]
     for cid in ids[:3] + ids[-2:]:
         ev += [["N", cid, "h%d.example.org" % cid], ["u", cid, "id%d" % cid], ["n", cid, "N%d" % cid], ["U", cid, "user", "real"]]
         ev.append([draw(st.sampled_from(["D", "T", "H"])), cid])
